@@ -102,7 +102,13 @@ func (s *coordinatorState) handleRecentOrCatchupResult(res result) {
 
 	// update failed heights
 	for h := range res.failed {
-		nextRetry, _ := s.retryStrategy.nextRetry(retryAttempt{}, time.Now())
+		// keep counting from the attempts already made for this height (it may have failed before
+		// the job was resumed from a checkpoint, or be in retry right now)
+		lastRetry := s.failed[h]
+		if inRetry, ok := s.inRetry[h]; ok && inRetry.count > lastRetry.count {
+			lastRetry = inRetry
+		}
+		nextRetry, _ := s.retryStrategy.nextRetry(lastRetry, time.Now())
 		s.failed[h] = nextRetry
 	}
 }
